@@ -391,6 +391,7 @@ theorem buildCanary_spec (c : Cfg) (br : BR) (s : S) (hc : s.canary = none) :
       case panic => simp [hn, hc, h2]
       all_goals
         dsimp only
+        unfold pickCanary
         split
         · rename_i hfc
           simp [hn, hc, h2, ownedDeps, hfc]
@@ -408,6 +409,7 @@ theorem buildCanary_spec (c : Cfg) (br : BR) (s : S) (hc : s.canary = none) :
         · rw [h0] at h2; cases h2; rfl
         · rw [h0] at h2; cases h2
       dsimp only
+      unfold pickCanary
       split
       · rename_i hfc
         simp [hn, hc, ownedDeps, hfc]
@@ -442,8 +444,8 @@ theorem buildCanary_fault (c : Cfg) (br : BR) (s : S) (h0 : ¬ faulted c s.n) :
       have hf : faulted c s2.n := by
         revert h
         cases o with
-        | fail x => cases x <;> dsimp only <;> (try exact id) <;> (split <;> (try exact id) <;> split <;> exact id)
-        | ok st => dsimp only; split <;> (try exact id) <;> split <;> exact id
+        | fail x => cases x <;> dsimp only <;> (try exact id) <;> (unfold pickCanary; split <;> (try exact id) <;> split <;> exact id)
+        | ok st => dsimp only; unfold pickCanary; split <;> (try exact id) <;> split <;> exact id
       have := hb hf
       subst this
       rfl
@@ -1077,5 +1079,498 @@ theorem planeFinalize_spec (c : Cfg) (br : BR) (w : World) (exp : Exp) :
       apply go
       · intro _; exact (hnf rfl).2
       · intro h; exact absurd (hfail _ rfl).1 h
+
+theorem pickCanary_not_failok (br : BR) (s : S) (ds : List Dep) (tpl : Option Template) :
+    (pickCanary br s ds tpl).2 ≠ .fail .ok := by
+  unfold pickCanary
+  split
+  · simp
+  · split <;> simp
+
+theorem buildCanary_not_failok (c : Cfg) (br : BR) (s : S) : (buildCanary c br s).2 ≠ .fail .ok := by
+  unfold buildCanary
+  split
+  · simp
+  · generalize listOwned c s = lo
+    obtain ⟨s1, ods⟩ := lo
+    cases ods with
+    | none => simp
+    | some ds =>
+      dsimp only
+      generalize buildStable c br s1 = bs
+      obtain ⟨s2, o⟩ := bs
+      cases o with
+      | ok st => exact pickCanary_not_failok _ _ _ _
+      | fail x => cases x <;> first | (simp; done) | exact pickCanary_not_failok _ _ _ _
+
+theorem selectCanary_eq (br : BR) (w : World) :
+    selectCanary br w = filterCanary br (filterActive (ownedDeps w)) ((w.find br.key).map (·.template)) := rfl
+
+theorem batchPrefix_spec (c : Cfg) (br : BR) (w : World) (exp : Exp) :
+    (batchPrefix c br (S0 w exp)).1.w = w ∧ (batchPrefix c br (S0 w exp)).1.exp = exp ∧
+    (∀ cd R t, (batchPrefix c br (S0 w exp)).2 = .ok (cd, R, t) →
+        ∃ st, w.find br.key = some st ∧ st.replicas = some R ∧ R ≠ 0 ∧
+          selectCanary br w = some cd ∧ cd.replicas ≠ none ∧ target br w = some t) ∧
+    ((batchPrefix c br (S0 w exp)).2 = .fail .ok → ∃ st, w.find br.key = some st ∧ st.replicas = some 0) := by
+  unfold batchPrefix
+  have hb := buildStable_spec c br (S0 w exp)
+  have hno := buildStable_not_failok c br (S0 w exp)
+  generalize buildStable c br (S0 w exp) = r1 at hb hno ⊢
+  obtain ⟨s1, o1⟩ := r1
+  simp only [S0] at hb hno
+  obtain ⟨hw1, he1, hca1, _, hok, hfail, hnf⟩ := hb
+  cases o1 with
+  | fail x =>
+    dsimp only
+    refine ⟨hw1, he1, by simp, ?_⟩
+    intro h; simp only [Out.fail.injEq] at h; subst h; exact absurd rfl hno
+  | ok st =>
+    dsimp only
+    obtain ⟨hs1, h2⟩ := hok st rfl
+    have hfind : w.find br.key = some st := by
+      rcases h2 with h2 | ⟨_, h2, _⟩
+      · cases h2
+      · exact h2
+    split
+    · simp [hw1, he1]
+    · rename_i R hR
+      split
+      · rename_i h0
+        refine ⟨hw1, he1, by simp, fun _ => ⟨st, hfind, by rw [hR, h0]⟩⟩
+      · rename_i h0
+        have hc := buildCanary_spec c br s1 hca1
+        have hno3 := buildCanary_not_failok c br s1
+        generalize buildCanary c br s1 = r3 at hc hno3 ⊢
+        obtain ⟨s3, o3⟩ := r3
+        simp only at hc hno3
+        obtain ⟨hw3, he3, _, hst3, hokc, _, _⟩ := hc
+        cases o3 with
+        | fail r =>
+          dsimp only
+          refine ⟨by rw [hw3, hw1], by rw [he3, he1], by simp, ?_⟩
+          intro h; simp only [Out.fail.injEq] at h
+          subst h
+          exact absurd rfl hno3
+        | ok cd =>
+          dsimp only
+          obtain ⟨_, hrep, hsel⟩ := hokc cd rfl
+          have hst3' := hst3 st hs1
+          rw [hst3', hw1] at hsel
+          simp only [Option.map_some] at hsel
+          have hselect : selectCanary br w = some cd := by
+            rw [selectCanary_eq, hfind]; exact hsel
+          split
+          · simp [hw3, hw1, he3, he1]
+          · cases hrid : br.rolloutID
+            · simp only [Bool.false_eq_true, if_false]
+              split
+              · rename_i he; simp [hw3, hw1, he3, he1]
+              · rename_i e he
+                refine ⟨by rw [hw3, hw1], by rw [he3, he1], ?_, by simp⟩
+                intro cd' R' t' h
+                simp only [Out.ok.injEq, Prod.mk.injEq] at h
+                obtain ⟨rfl, rfl, rfl⟩ := h
+                exact ⟨st, hfind, hR, h0, hselect, hrep, by simp [target, hfind, hR, he]⟩
+            · simp only [if_true]
+              split
+              · simp [hw3, hw1, he3, he1]
+              · split
+                · rename_i he; simp [hw3, hw1, he3, he1]
+                · rename_i e he
+                  refine ⟨by rw [hw3, hw1], by rw [he3, he1], ?_, by simp⟩
+                  intro cd' R' t' h
+                  simp only [Out.ok.injEq, Prod.mk.injEq] at h
+                  obtain ⟨rfl, rfl, rfl⟩ := h
+                  exact ⟨st, hfind, hR, h0, hselect, hrep, by simp [target, hfind, hR, he]⟩
+
+theorem planeEnsureReady_world (c : Cfg) (br : BR) (w : World) (exp : Exp) :
+    (planeEnsureReady c br (S0 w exp)).1.w = w ∧ (planeEnsureReady c br (S0 w exp)).1.exp = exp := by
+  unfold planeEnsureReady
+  obtain ⟨h1, h2, _, _⟩ := batchPrefix_spec c br w exp
+  generalize batchPrefix c br (S0 w exp) = r1 at h1 h2 ⊢
+  obtain ⟨s1, o1⟩ := r1
+  cases o1 with
+  | fail r => exact ⟨h1, h2⟩
+  | ok x => obtain ⟨cd, R, t⟩ := x; exact ⟨h1, h2⟩
+
+theorem planeUpgradeBatch_spec (c : Cfg) (br : BR) (w : World) (exp : Exp) :
+    (planeUpgradeBatch c br (S0 w exp)).1.exp = exp ∧
+    (((planeUpgradeBatch c br (S0 w exp)).1.w = w ∧
+        ((planeUpgradeBatch c br (S0 w exp)).2 = .ok → ∃ st, w.find br.key = some st ∧
+          (st.replicas = some 0 ∨ ∃ cd t cur, selectCanary br w = some cd ∧ target br w = some t ∧
+              cd.replicas = some cur ∧ t ≤ cur))) ∨
+      (∃ cd t cur st, w.find br.key = some st ∧ st.replicas ≠ some 0 ∧ selectCanary br w = some cd ∧
+          target br w = some t ∧ cd.replicas = some cur ∧ cur < t ∧
+          (planeUpgradeBatch c br (S0 w exp)).2 = .ok ∧
+          (planeUpgradeBatch c br (S0 w exp)).1.w = w.modify cd.name (setReplicas t))) := by
+  unfold planeUpgradeBatch
+  obtain ⟨h1, h2, h3, h4⟩ := batchPrefix_spec c br w exp
+  generalize batchPrefix c br (S0 w exp) = r1 at h1 h2 h3 h4 ⊢
+  obtain ⟨s1, o1⟩ := r1
+  cases o1 with
+  | fail r =>
+    dsimp only at h1 h2 h3 h4 ⊢
+    refine ⟨h2, Or.inl ⟨h1, ?_⟩⟩
+    intro hr
+    subst hr
+    obtain ⟨st, hst, hrep⟩ := h4 rfl
+    exact ⟨st, hst, Or.inl hrep⟩
+  | ok x =>
+    obtain ⟨cd, R, t⟩ := x
+    dsimp only at h1 h2 h3 h4 ⊢
+    obtain ⟨st, hst, hR, hR0, hsel, hrep, htgt⟩ := h3 cd R t rfl
+    split
+    · rename_i hnone; exact absurd hnone hrep
+    · rename_i cur hcur
+      obtain ⟨he, _, _⟩ := canaryUpgrade_misc c s1 cd cur t
+      refine ⟨by rw [he, h2], ?_⟩
+      rcases canaryUpgrade_spec c s1 cd cur t with ⟨hw, hok⟩ | ⟨hlt, hok, hw⟩
+      · left
+        refine ⟨by rw [hw, h1], ?_⟩
+        intro hr
+        exact ⟨st, hst, Or.inr ⟨cd, t, cur, hsel, htgt, hcur, hok hr⟩⟩
+      · right
+        refine ⟨cd, t, cur, st, hst, ?_, hsel, htgt, hcur, hlt, hok, by rw [hw, h1]⟩
+        rw [hR]; intro h; cases h; exact hR0 rfl
+
+theorem initTail_spec (c : Cfg) (br : BR) (s : S) (st : Dep) :
+    (initTail c br s st).1.w = s.w ∨
+      (∃ st' cd, s.canary = none ∧ s.w.find br.key = some st' ∧ newCanary br st' s.w = some cd ∧
+        (initTail c br s st).1.w = s.w.add cd ∧ (initTail c br s st).2.1 = .err) := by
+  unfold initTail
+  obtain ⟨_, _, _, hok, hw⟩ := canaryCreate_spec c br s
+  generalize canaryCreate c br s = r4 at hok hw ⊢
+  obtain ⟨s4, o4⟩ := r4
+  dsimp only at hok hw
+  rcases hw with hw | ⟨st', cd, h1, h2, h3, h4, h5⟩
+  · left
+    cases o4 <;> dsimp only
+    · split <;> exact hw
+    all_goals exact hw
+  · right
+    subst h5
+    exact ⟨st', cd, h1, h2, h3, h4, rfl⟩
+
+theorem planeInitialize_spec (c : Cfg) (br : BR) (w : World) (exp : Exp) :
+    ∃ w1, (w1 = w ∨ ((w.find br.key).isSome ∧ w1 = w.modify br.key setCtrl)) ∧
+      ((planeInitialize c br (S0 w exp)).1.w = w1 ∨
+        (∃ st cd, w1.find br.key = some st ∧ newCanary br st w1 = some cd ∧
+          filterCanary br (filterActive (ownedDeps w1)) (some st.template) = none ∧
+          (planeInitialize c br (S0 w exp)).1.w = w1.add cd ∧ (planeInitialize c br (S0 w exp)).2.1 = .err)) := by
+  unfold planeInitialize
+  have hb := buildStable_spec c br (S0 w exp)
+  generalize buildStable c br (S0 w exp) = r1 at hb ⊢
+  obtain ⟨s1, o1⟩ := r1
+  simp only [S0] at hb
+  obtain ⟨hw1, _, hca1, _, hok, _, _⟩ := hb
+  cases o1 with
+  | fail x => exact ⟨w, Or.inl rfl, Or.inl hw1⟩
+  | ok st0 =>
+    dsimp only
+    obtain ⟨hs1, h2⟩ := hok st0 rfl
+    have hfind : w.find br.key = some st0 := by
+      rcases h2 with h2 | ⟨_, h2, _⟩
+      · cases h2
+      · exact h2
+    have hi := stableInitialize_spec c br s1 st0
+    generalize stableInitialize c br s1 st0 = r2 at hi ⊢
+    obtain ⟨s2, o2⟩ := r2
+    simp only at hi
+    obtain ⟨hw2, _, hst2, hca2, _, _⟩ := hi
+    -- the world after `stable.Initialize`
+    have hw2' : s2.w = w ∨ ((w.find br.key).isSome ∧ s2.w = w.modify br.key setCtrl) := by
+      rcases hw2 with h | ⟨_, h⟩
+      · left; rw [h, hw1]
+      · right; exact ⟨by simp [hfind], by rw [h, hw1]⟩
+    have stop : ∃ w1, (w1 = w ∨ ((w.find br.key).isSome ∧ w1 = w.modify br.key setCtrl)) ∧
+        (s2.w = w1 ∨ (∃ st cd, w1.find br.key = some st ∧ newCanary br st w1 = some cd ∧
+          filterCanary br (filterActive (ownedDeps w1)) (some st.template) = none ∧
+          s2.w = w1.add cd ∧ False)) := ⟨s2.w, hw2', Or.inl rfl⟩
+    cases o2
+    case err => dsimp only; obtain ⟨w1, h1, h2⟩ := stop; exact ⟨w1, h1, Or.inl (by rcases h2 with h | ⟨_, _, _, _, _, _, h⟩; exact h; exact h.elim)⟩
+    case notFound => dsimp only; obtain ⟨w1, h1, h2⟩ := stop; exact ⟨w1, h1, Or.inl (by rcases h2 with h | ⟨_, _, _, _, _, _, h⟩; exact h; exact h.elim)⟩
+    case panic => dsimp only; obtain ⟨w1, h1, h2⟩ := stop; exact ⟨w1, h1, Or.inl (by rcases h2 with h | ⟨_, _, _, _, _, _, h⟩; exact h; exact h.elim)⟩
+    case ok =>
+      dsimp only
+      have hcan2 : s2.canary = none := by rw [hca2, hca1]
+      have hc := buildCanary_spec c br s2 hcan2
+      have hno3 := buildCanary_not_failok c br s2
+      generalize buildCanary c br s2 = r3 at hc hno3 ⊢
+      obtain ⟨s3, o3⟩ := r3
+      simp only at hc hno3
+      obtain ⟨hw3, _, _, hst3, hokc, hnfc, _⟩ := hc
+      have hs3 : s3.stable = some st0 := hst3 st0 (by rw [hst2, hs1])
+      -- the stable Deployment in the world after `stable.Initialize` has the template that was read
+      have htpl : ∀ st, s2.w.find br.key = some st → st.template = st0.template := by
+        intro st hst
+        rcases hw2' with h | ⟨_, h⟩
+        · rw [h, hfind] at hst; cases hst; rfl
+        · rw [h, find_modify _ _ _ _ (by intro d; rfl), hfind] at hst
+          simp only [Option.map_some] at hst
+          cases hst
+          split <;> rfl
+      cases o3 with
+      | ok cd =>
+        dsimp only
+        obtain ⟨hcd, _, _⟩ := hokc cd rfl
+        refine ⟨s2.w, hw2', Or.inl ?_⟩
+        rcases initTail_spec c br s3 st0 with h | ⟨_, _, h, _⟩
+        · rw [h, hw3]
+        · rw [hcd] at h; cases h
+      | fail x =>
+        cases x
+        case err => dsimp only; exact ⟨s2.w, hw2', Or.inl hw3⟩
+        case panic => dsimp only; exact ⟨s2.w, hw2', Or.inl hw3⟩
+        case ok => exact absurd rfl hno3
+        case notFound =>
+          dsimp only
+          obtain ⟨_, hnone⟩ := hnfc rfl
+          rw [hs3] at hnone
+          simp only [Option.map_some] at hnone
+          refine ⟨s2.w, hw2', ?_⟩
+          rcases initTail_spec c br s3 st0 with h | ⟨st, cd, _, h2, h3, h4, h5⟩
+          · left; rw [h, hw3]
+          · right
+            rw [hw3] at h2 h3 h4
+            exact ⟨st, cd, h2, h3, by rw [htpl st h2]; exact hnone, h4, h5⟩
+
+/-! ## uniform description of what a call does to the world -/
+
+/-- per object: the write `f` to the object named `id`, then the finalizer removals `ids` -/
+def eff (id : Nat) (f : Dep → Dep) (ids : List Nat) (d : Dep) : Option Dep :=
+  dropFn ids (if d.name = id then f d else d)
+
+def effW (w : World) (id : Nat) (f : Dep → Dep) (ids : List Nat) : World := dropAll (w.modify id f) ids
+
+theorem eff_name {id : Nat} {f : Dep → Dep} {ids : List Nat} {d d' : Dep} (hf : ∀ d, (f d).name = d.name)
+    (h : eff id f ids d = some d') : d'.name = d.name := by
+  unfold eff at h
+  rw [dropFn_name h]
+  split <;> simp [hf]
+
+theorem effW_find {w : World} {id : Nat} {f : Dep → Dep} {ids : List Nat} {d : Dep}
+    (hf : ∀ d, (f d).name = d.name) (hnd : (names w).Nodup) (hd : d ∈ w.deps) :
+    (effW w id f ids).find d.name = eff id f ids d := by
+  unfold effW eff
+  rw [find_dropAll ids d.name (by rw [names_modify _ _ _ hf]; exact hnd), find_modify _ _ _ _ hf,
+    find_of_mem hnd hd]
+  rfl
+
+theorem effW_find_none {w : World} {id : Nat} {f : Dep → Dep} {ids : List Nat} {n : Nat}
+    (hf : ∀ d, (f d).name = d.name) (hnd : (names w).Nodup) (h : w.find n = none) :
+    (effW w id f ids).find n = none := by
+  unfold effW
+  rw [find_dropAll ids n (by rw [names_modify _ _ _ hf]; exact hnd), find_modify _ _ _ _ hf, h]
+  rfl
+
+theorem effW_mem {w : World} {id : Nat} {f : Dep → Dep} {ids : List Nat} {d' : Dep}
+    (h : d' ∈ (effW w id f ids).deps) : ∃ d ∈ w.deps, eff id f ids d = some d' := by
+  unfold effW at h
+  obtain ⟨x, hx, hxd⟩ := mem_dropAll.mp h
+  unfold World.modify at hx
+  obtain ⟨d, hd, rfl⟩ := List.mem_map.mp hx
+  exact ⟨d, hd, hxd⟩
+
+theorem effW_id_nil (w : World) (id : Nat) : effW w id (fun d => d) [] = w := by
+  unfold effW
+  rw [dropAll_nil]
+  unfold World.modify
+  simp
+
+theorem modify_id (w : World) (id : Nat) : w.modify id (fun d => d) = w := by
+  unfold World.modify; simp
+
+theorem effW_nil (w : World) (id : Nat) (f : Dep → Dep) : effW w id f [] = w.modify id f := by
+  unfold effW; rw [dropAll_nil]
+
+/-- what `eff` can turn an object into -/
+theorem eff_some {id : Nat} {f : Dep → Dep} {ids : List Nat} {d d' : Dep} (h : eff id f ids d = some d') :
+    (d' = (if d.name = id then f d else d)) ∨
+    ((if d.name = id then f d else d).name ∈ ids ∧ d' = { (if d.name = id then f d else d) with finalizer := false }) :=
+  dropFn_some h
+
+/-! ## selection -/
+
+theorem filterCanary_mem {br : BR} {ds : List Dep} {tpl : Option Template} {d : Dep}
+    (h : filterCanary br ds tpl = some d) : d ∈ ds := by
+  unfold filterCanary at h
+  have hm : ∀ x, x ∈ newestFirst ds → x ∈ ds := fun x hx => by
+    unfold newestFirst at hx; exact List.mem_mergeSort.mp hx
+  split at h
+  · cases h
+  · rename_i d0 rest heq
+    split at h
+    · cases h; exact hm _ (by rw [heq]; exact List.mem_cons_self)
+    · exact hm _ (by rw [heq]; exact List.mem_of_find?_eq_some h)
+
+theorem filterCanary_none {br : BR} {ds : List Dep} {t : Template}
+    (h : filterCanary br ds (some t) = none) : ∀ d ∈ ds, eqIgnore br t d.template = false := by
+  unfold filterCanary at h
+  intro d hd
+  have hd' : d ∈ newestFirst ds := by unfold newestFirst; exact List.mem_mergeSort.mpr hd
+  split at h
+  · rename_i heq; rw [heq] at hd'; cases hd'
+  · rename_i d0 rest heq
+    dsimp only at h
+    rw [← heq] at h
+    have := List.find?_eq_none.mp h d hd'
+    simpa using this
+
+theorem selectCanary_mem {br : BR} {w : World} {cd : Dep} (h : selectCanary br w = some cd) :
+    cd ∈ w.deps ∧ cd.owner = .this ∧ cd.deleting = false := by
+  rw [selectCanary_eq] at h
+  have h1 := filterCanary_mem h
+  unfold filterActive at h1
+  obtain ⟨h2, h3⟩ := List.mem_filter.mp h1
+  unfold ownedDeps at h2
+  obtain ⟨h4, h5⟩ := List.mem_filter.mp h2
+  exact ⟨h4, by simpa using h5, by simpa using h3⟩
+
+/-- **Everything a call can do to the world**: at most one write `f` to one object `id` (control-info in
+    `Initialize`, replicas of the selected canary in `UpgradeBatch`, the release patch in `Finalize`),
+    then finalizer removals `ids` from owned Deployments (`Finalize` only), or one creation (`Initialize` only). -/
+theorem call_shape (br : BR) (op : Op) (c : Cfg) (w : World) (exp : Exp) :
+    ∃ id f ids, (∀ d : Dep, (f d).name = d.name) ∧
+      ((f = fun d => d) ∨ (op = .init ∧ id = br.key ∧ f = setCtrl) ∨
+        (op = .fin ∧ id = br.key ∧ f = releaseStable br.partition.isSome) ∨
+        (op = .upgrade ∧ ∃ cd t cur st, id = cd.name ∧ f = setReplicas t ∧ w.find br.key = some st ∧
+            st.replicas ≠ some 0 ∧ selectCanary br w = some cd ∧ target br w = some t ∧
+            cd.replicas = some cur ∧ cur < t ∧ (call br op c w exp).res = .ok)) ∧
+      (ids = [] ∨ (op = .fin ∧ ∀ i ∈ ids, ∃ d ∈ ownedDeps (w.modify id f), d.finalizer = true ∧ d.name = i)) ∧
+      ((call br op c w exp).w = effW w id f ids ∨
+        (op = .init ∧ ids = [] ∧ ∃ st cd, (w.modify id f).find br.key = some st ∧
+            newCanary br st (w.modify id f) = some cd ∧
+            filterCanary br (filterActive (ownedDeps (w.modify id f))) (some st.template) = none ∧
+            (call br op c w exp).w = (w.modify id f).add cd ∧ (call br op c w exp).res = .err)) := by
+  cases op
+  case init =>
+    obtain ⟨w1, hw1, hres⟩ := planeInitialize_spec c br w exp
+    rcases hw1 with rfl | ⟨_, rfl⟩
+    · refine ⟨br.key, fun d => d, [], fun _ => rfl, Or.inl rfl, Or.inl rfl, ?_⟩
+      rw [effW_id_nil, modify_id]
+      rcases hres with h | ⟨st, cd, h1, h2, h3, h4, h5⟩
+      · exact Or.inl h
+      · exact Or.inr ⟨rfl, rfl, st, cd, h1, h2, h3, h4, h5⟩
+    · refine ⟨br.key, setCtrl, [], fun _ => rfl, Or.inr (Or.inl ⟨rfl, rfl, rfl⟩), Or.inl rfl, ?_⟩
+      rw [effW_nil]
+      rcases hres with h | ⟨st, cd, h1, h2, h3, h4, h5⟩
+      · exact Or.inl h
+      · exact Or.inr ⟨rfl, rfl, st, cd, h1, h2, h3, h4, h5⟩
+  case upgrade =>
+    obtain ⟨_, hres⟩ := planeUpgradeBatch_spec c br w exp
+    rcases hres with ⟨h, _⟩ | ⟨cd, t, cur, st, h1, h2, h3, h4, h5, h6, h7, h8⟩
+    · exact ⟨0, fun d => d, [], fun _ => rfl, Or.inl rfl, Or.inl rfl, Or.inl (by rw [effW_id_nil]; exact h)⟩
+    · exact ⟨cd.name, setReplicas t, [], fun _ => rfl,
+        Or.inr (Or.inr (Or.inr ⟨rfl, cd, t, cur, st, rfl, rfl, h1, h2, h3, h4, h5, h6, h7⟩)), Or.inl rfl,
+        Or.inl (by rw [effW_nil]; exact h8)⟩
+  case ensure =>
+    obtain ⟨h, _⟩ := planeEnsureReady_world c br w exp
+    exact ⟨0, fun d => d, [], fun _ => rfl, Or.inl rfl, Or.inl rfl, Or.inl (by rw [effW_id_nil]; exact h)⟩
+  case fin =>
+    obtain ⟨w1, ids, hw1, hw, hids, _, _⟩ := planeFinalize_spec c br w exp
+    rcases hw1 with ⟨rfl, _⟩ | ⟨_, rfl⟩
+    · refine ⟨br.key, fun d => d, ids, fun _ => rfl, Or.inl rfl, Or.inr ⟨rfl, ?_⟩, Or.inl ?_⟩
+      · rw [modify_id]; exact hids
+      · unfold effW; rw [modify_id]; exact hw
+    · exact ⟨br.key, releaseStable br.partition.isSome, ids, fun _ => rfl,
+        Or.inr (Or.inr (Or.inl ⟨rfl, rfl, rfl⟩)), Or.inr ⟨rfl, hids⟩, Or.inl hw⟩
+
+/-! ## looking objects up before and after a call -/
+
+theorem maxName_eq (w : World) : w.maxName = (names w).foldl max 0 := by
+  unfold World.maxName names
+  rw [List.foldl_map]
+
+theorem maxName_modify (w : World) (id : Nat) (f : Dep → Dep) (hf : ∀ d, (f d).name = d.name) :
+    (w.modify id f).maxName = w.maxName := by
+  rw [maxName_eq, maxName_eq, names_modify _ _ _ hf]
+
+/-- the world after a call: one write and some finalizer removals, or one write and one new object -/
+def After (w : World) (id : Nat) (f : Dep → Dep) (ids : List Nat) (P : Dep → Prop) (w' : World) : Prop :=
+  w' = effW w id f ids ∨ (ids = [] ∧ ∃ cd, P cd ∧ cd.name = w.maxName + 1 ∧ w' = (w.modify id f).add cd)
+
+theorem eff_nil (id : Nat) (f : Dep → Dep) (d : Dep) : eff id f [] d = some (if d.name = id then f d else d) := by
+  unfold eff dropFn; simp
+
+theorem find_after {w w' : World} {id : Nat} {f : Dep → Dep} {ids : List Nat} {P : Dep → Prop}
+    (hf : ∀ d : Dep, (f d).name = d.name) (hnd : (names w).Nodup) (h : After w id f ids P w')
+    {d : Dep} (hd : d ∈ w.deps) : w'.find d.name = eff id f ids d := by
+  rcases h with h | ⟨hids, cd, _, _, h⟩
+  · rw [h, effW_find hf hnd hd]
+  · subst hids
+    rw [h, find_add, find_modify _ _ _ _ hf, find_of_mem hnd hd, eff_nil]; rfl
+
+theorem mem_after {w w' : World} {id : Nat} {f : Dep → Dep} {ids : List Nat} {P : Dep → Prop}
+    (hf : ∀ d : Dep, (f d).name = d.name) (hnd : (names w).Nodup) (h : After w id f ids P w')
+    {d' : Dep} (hd' : d' ∈ w'.deps) :
+    (∃ d ∈ w.deps, eff id f ids d = some d' ∧ w.find d'.name = some d) ∨
+    (ids = [] ∧ P d' ∧ d'.name = w.maxName + 1 ∧ w.find d'.name = none ∧ w' = (w.modify id f).add d') := by
+  rcases h with h | ⟨hids, cd, hP, hcd, h⟩
+  · left
+    rw [h] at hd'
+    obtain ⟨d, hd, he⟩ := effW_mem hd'
+    exact ⟨d, hd, he, by rw [eff_name hf he]; exact find_of_mem hnd hd⟩
+  · subst hids
+    rw [h] at hd'
+    unfold World.add at hd'
+    rcases List.mem_append.mp hd' with hm | hm
+    · left
+      unfold World.modify at hm
+      obtain ⟨d, hd, rfl⟩ := List.mem_map.mp hm
+      refine ⟨d, hd, eff_nil id f d, ?_⟩
+      have : (if d.name = id then f d else d).name = d.name := by split <;> simp [hf]
+      rw [this]; exact find_of_mem hnd hd
+    · right
+      simp only [List.mem_singleton] at hm
+      subst hm
+      exact ⟨rfl, hP, hcd, by rw [hcd]; exact find_fresh w, h⟩
+
+/-- the objects whose finalizer `Finalize` removes are owned and carry it -/
+theorem ids_owned {w : World} {id : Nat} {f : Dep → Dep} {ids : List Nat}
+    (hf : ∀ d : Dep, (f d).name = d.name) (hnd : (names w).Nodup)
+    (hids : ∀ i ∈ ids, ∃ x ∈ ownedDeps (w.modify id f), x.finalizer = true ∧ x.name = i)
+    {d : Dep} (hd : d ∈ w.deps) (hin : d.name ∈ ids) :
+    (if d.name = id then f d else d).owner = .this ∧ (if d.name = id then f d else d).finalizer = true := by
+  obtain ⟨x, hx, hxf, hxn⟩ := hids _ hin
+  unfold ownedDeps at hx
+  obtain ⟨hx1, hx2⟩ := List.mem_filter.mp hx
+  unfold World.modify at hx1
+  obtain ⟨y, hy, rfl⟩ := List.mem_map.mp hx1
+  have hyn : y.name = d.name := by
+    rw [← hxn]; split <;> simp [hf]
+  have : y = d := by
+    have h1 := find_of_mem hnd hy
+    have h2 := find_of_mem hnd hd
+    rw [hyn, h2] at h1
+    cases h1; rfl
+  subst this
+  exact ⟨by simpa using hx2, hxf⟩
+
+theorem newCanary_some {br : BR} {st cd : Dep} {w : World} (h : newCanary br st w = some cd) :
+    ∃ tp, patchedTemplate br st.template = some tp ∧
+      cd = { name := w.maxName + 1, owner := .this, ctrl := .this, canaryOf := some st.name, template := tp,
+             replicas := some 0, paused := false, finalizer := true, otherFinalizer := false, deleting := false,
+             created := w.maxCreated + 1, generation := 1, observedGeneration := 0,
+             statusReplicas := 0, updatedReplicas := 0, availableReplicas := 0, strategy := st.strategy } := by
+  unfold newCanary at h
+  cases hp : patchedTemplate br st.template with
+  | none => rw [hp] at h; cases h
+  | some tp => rw [hp] at h; simp only [Option.map_some, Option.some.injEq] at h; exact ⟨tp, rfl, h.symm⟩
+
+theorem shape_after {br : BR} {op : Op} {w w' : World} {id : Nat} {f : Dep → Dep} {ids : List Nat} {res : Res}
+    (hf : ∀ d : Dep, (f d).name = d.name)
+    (hworld : w' = effW w id f ids ∨
+        (op = .init ∧ ids = [] ∧ ∃ st cd, (w.modify id f).find br.key = some st ∧
+            newCanary br st (w.modify id f) = some cd ∧
+            filterCanary br (filterActive (ownedDeps (w.modify id f))) (some st.template) = none ∧
+            w' = (w.modify id f).add cd ∧ res = .err)) :
+    After w id f ids (fun cd => op = .init ∧ res = .err ∧ ∃ st, (w.modify id f).find br.key = some st ∧
+        newCanary br st (w.modify id f) = some cd ∧
+        filterCanary br (filterActive (ownedDeps (w.modify id f))) (some st.template) = none) w' := by
+  rcases hworld with h | ⟨hop, hids, st, cd, hst, hnew, hnone, h, hres⟩
+  · exact Or.inl h
+  · refine Or.inr ⟨hids, cd, ⟨hop, hres, st, hst, hnew, hnone⟩, ?_, h⟩
+    obtain ⟨tp, _, rfl⟩ := newCanary_some hnew
+    simp [maxName_modify _ _ _ hf]
 
 end RV.CtlCanary
